@@ -16,6 +16,7 @@ CHECKS = {
     "C11": p_det.check_c11,
     "C12": p_names.check_c12,
     "C13": p_migrate.check_c13,
+    "C14": p_migrate.check_c14,
     "C15": p_fs.check_c15,
     "C16": p_fs.check_c16,
 }
